@@ -69,10 +69,10 @@ CONTENT_TECH = ("TLA+ model checking: MC_Content.tla enumerates programs of API 
                 "(IdealOk checked on the model); each program is replayed on the real API with every request rendered independently "
                 "(wasm-encoder + wasmparser) and the output decoded; ContentTrace.tla steps Content.tla along the recorded calls and "
                 "judges every returned index and the final decoded lists")
-CHECKS["C12"] = ("content-family", CONTENT_TECH, "FunctionBuilder programs (3 param lists x 2 result lists x 4 local lists x 11 bodies incl. ones ending in a nested block/loop/if end, named/unnamed, finish_module and replace_import_in_module, on plain and rec-group bases, up to 2 per program, interleaved with add_local on a neighbour and after convert_local_fn_to_import): the function exported under the returned ID must decode to exactly the requested signature, locals, body + end and name", "DESIGN.md 6 C12")
-CHECKS["C13"] = ("content-family", CONTENT_TECH, "add_func_type / add_array_type / add_struct_type and their full (final/shared) variants, up to 3 (quick) / 4 (thorough) per program, on bases with duplicate types and explicit rec groups: returned index designates an equal type, repeated addition returns the same index, the prefix of existing types is unchanged, nothing else is appended", "DESIGN.md 6 C13")
-CHECKS["C14"] = ("content-family", CONTENT_TECH, "add_local (i32/f64) through FunctionModifier (one modifier per call and one for many calls) and ModuleIterator, on two functions with 4 pre-existing local layouts, up to 3 (quick) / 4 (thorough) calls: returned index = params + declared locals, decoded locals = old ++ added in order", "DESIGN.md 6 C14")
-CHECKS["C28"] = ("content-family", CONTENT_TECH, "custom sections at several positions of generated bases, then add / delete / modify programs: decoded (name, bytes) list of non-name custom sections must equal the Content.tla list, all non-custom sections unchanged", "DESIGN.md 6 C28")
+CHECKS["C12"] = ("content-family", CONTENT_TECH, "FunctionBuilder programs (3 param lists x 2 result lists x 4 local lists x 11 bodies incl. ones ending in a nested block/loop/if end, named/unnamed, finish_module, finish_component (module inside a component) and replace_import_in_module, on plain and rec-group bases, up to 2 per program, interleaved with add_local on a neighbour and after convert_local_fn_to_import): the function exported under the returned ID must decode to exactly the requested signature, locals, body + end and name", "DESIGN.md 6 C12")
+CHECKS["C13"] = ("content-family", CONTENT_TECH, "add_func_type / add_array_type / add_struct_type and their full (final/shared/declared-supertype) variants, up to 3 (quick) / 4 (thorough) per program, on bases with duplicate types and explicit rec groups: returned index designates an equal type, repeated addition returns the same index, the prefix of existing types is unchanged, nothing else is appended", "DESIGN.md 6 C13")
+CHECKS["C14"] = ("content-family", CONTENT_TECH, "add_local (i32/f64/v128) through FunctionModifier (one modifier per call and one for many calls), ModuleIterator, and - on the module inside a component - ComponentIterator, on two functions with 4 pre-existing local layouts, up to 3 (quick) / 4 (thorough) calls: returned index = params + declared locals, decoded locals = old ++ added in order", "DESIGN.md 6 C14")
+CHECKS["C28"] = ("content-family", CONTENT_TECH, "0-3 custom sections (duplicate names) after, before or spread between the other sections of the base, then add / delete / modify programs: decoded (name, bytes) list of non-name custom sections must equal the Content.tla list, all non-custom sections unchanged", "DESIGN.md 6 C28")
 CHECKS["C30"] = ("content-family", CONTENT_TECH, "add_global (i32/i64/f32/f64/v128 extreme and NaN-payload constants, ref.func / ref.null initialisers, both mutabilities), mod_global_init_expr, add_data (active/passive), add_local_memory (with/without max, memory64), add_export_func/mem, interleaved with add_import_memory / add_imported_global / add_import_func (which move every local index; Content.tla FinalIdx maps the returned handles to output indices, also inside ref.func / global.get initialisers, data-segment memory indices and exports), up to 3 (quick) / 4 (thorough) per program: decoded items at the returned IDs must equal the independently rendered request bit for bit, all other items unchanged", "DESIGN.md 6 C30")
 CHECKS["C24"] = ("opcode-family", "TLA+ model checking: OpcodeTable.tla (generated from the trait signatures of src/opcode.rs) x OpcodeIdeal.tla give, for every helper and "
    "every immediate-class selection, the instruction the name denotes; MC_Opcode.tla enumerates them (TableOk checked); each is replayed through the real helper on a "
